@@ -175,7 +175,11 @@ pub fn execute(wl: Arc<Workload>, base: &Path) {
 	if !wl.shutdown_early {
 		// (3) without any further call the queue drains (and with always_flush everything is
 		// applied)
-		let limit = 3_000_000u64;
+		// under the uniformly random scheduler the workers get as many steps as the observer (the
+		// most any of ~37 000 executions of a quick run needed was 98 000 observer steps); PCT
+		// schedules are unfair by construction and keep the larger bound (beyond shuttle's own
+		// step limit, which is counted as an unfair schedule and skipped)
+		let limit = if FAIR_SCHEDULER.load(Ordering::SeqCst) { 1_000_000u64 } else { 3_000_000u64 };
 		let mut spins = 0u64;
 		loop {
 			let st = db.verif_pipeline_state();
@@ -190,6 +194,7 @@ pub fn execute(wl: Arc<Workload>, base: &Path) {
 			}
 			let drained = st.0 == 0 && (!wl.always_flush || (st.2 <= 0 && !st.4));
 			if drained {
+				MAX_OBSERVER_SPINS.fetch_max(spins, Ordering::SeqCst);
 				break
 			}
 			spins += 1;
